@@ -281,4 +281,153 @@ theorem C10_words_file (W ni ns : Nat) (text : Str) (h : NoLongChunk W ni ns tex
     (by simpa [NoLongChunk, length_blanks] using h)
   rw [grouped_words fileWords_reader W ni ns _ true _ (splitChunks_chain _ (munge_ws text)).1 hg, splitChunks_flatten]
 
+/-! ## 4. plain lines; the model's tests and `Spec/File.lean`'s tests are the same tests -/
+
+/-- no white space other than the blank (no tab, no control white space, no Unicode space) -/
+def Clean (l : Str) : Prop := ∀ c ∈ l, pyIsSpace c = true → c = ' '
+
+instance (l : Str) : Decidable (Clean l) := by unfold Clean; infer_instance
+
+theorem pyIsSpace_of_isTwWs (c : Char) (h : isTwWs c = true) : pyIsSpace c = true := by
+  have hall : ∀ n ∈ Gen.textwrapWhitespaceCodes, Gen.pySpaceCodes.contains n = true := by decide
+  simp only [isTwWs, List.contains_iff_mem] at h
+  exact hall _ h
+
+theorem Clean.ws {l : Str} (h : Clean l) : ∀ c ∈ l, isTwWs c = true → c = ' ' :=
+  fun c hc hw => h c hc (pyIsSpace_of_isTwWs c hw)
+
+theorem Clean.tail {c : Char} {l : Str} (h : Clean (c :: l)) : Clean l :=
+  fun x hx => h x (List.mem_cons_of_mem _ hx)
+
+theorem Clean.no_tab {l : Str} (h : Clean l) : ∀ c ∈ l, c ≠ '\t' := by
+  intro c hc heq
+  subst heq
+  have : pyIsSpace '\t' = true := by decide
+  have := h _ hc this
+  exact absurd this (by decide)
+
+theorem expandTabsAux_clean (n : Nat) : ∀ (l : Str) (col : Nat), Clean l → expandTabsAux n col l = l
+  | [], _, _ => rfl
+  | c :: rest, col, h => by
+    have hc : c ≠ '\t' := h.no_tab c List.mem_cons_self
+    have hc' : (c == '\t') = false := by simpa using hc
+    unfold expandTabsAux
+    simp only [hc', Bool.false_eq_true, if_false]
+    split <;> rw [expandTabsAux_clean n rest _ h.tail]
+
+theorem expandTabs_clean (n : Nat) (l : Str) (h : Clean l) : expandTabs n l = l :=
+  expandTabsAux_clean n l 0 h
+
+theorem munge_clean (l : Str) (h : Clean l) : munge l = l := by
+  have h1 : Gen.textwrapExpandTabs = true := by decide
+  have h2 : Gen.textwrapReplaceWhitespace = true := by decide
+  simp only [munge, h1, h2, if_true, expandTabs_clean _ l h]
+  have : ∀ (m : Str), (∀ c ∈ m, isTwWs c = true → c = ' ') → m.map (fun c => if isTwWs c = true then ' ' else c) = m := by
+    intro m
+    induction m with
+    | nil => intro _; rfl
+    | cons x xs ih =>
+      intro hm
+      simp only [List.map_cons]
+      rw [ih (fun c hc => hm c (List.mem_cons_of_mem _ hc))]
+      by_cases hx : isTwWs x = true
+      · simp [hx, hm x List.mem_cons_self hx]
+      · simp [hx]
+  exact this l h.ws
+
+theorem leadBlanks_eq (l : Str) : leadBlanks l = (l.takeWhile (· = ' ')).length := by
+  fun_induction leadBlanks l with
+  | case1 rest ih => simp [List.takeWhile_cons, ih]
+  | case2 l hne =>
+    cases l with
+    | nil => rfl
+    | cons c t =>
+      have : c ≠ ' ' := by
+        intro h; subst h; exact hne t rfl
+      simp [List.takeWhile_cons, this]
+
+theorem beq_dec (a b : Char) : (a == b) = decide (a = b) := by
+  by_cases h : a = b <;> simp [h]
+
+theorem isCommentLine_eq (l : Str) : isCommentLine l = Spec.File.isCommentCard l := by
+  have h5 : Gen.blankSpaceContinue = 5 := rfl
+  simp only [isCommentLine, Spec.File.isCommentCard, leadBlanks_eq, h5]
+  by_cases hl : (l.takeWhile (· = ' ')).length ≥ 5
+  · have : ¬ (l.takeWhile (· = ' ')).length < 5 := by omega
+    simp [hl, this]
+  · have : (l.takeWhile (· = ' ')).length < 5 := by omega
+    simp only [hl, if_false, this, decide_true, Bool.true_and]
+    cases l.drop (l.takeWhile (· = ' ')).length with
+    | nil => rfl
+    | cons c rest =>
+      cases rest with
+      | nil => simp [beq_dec]
+      | cons d r => simp [beq_dec]
+
+theorem splitDollar_eq (l : Str) :
+    Spec.File.splitDollar l = ((partitionDollar l).1, if (partitionDollar l).2.1 then some (partitionDollar l).2.2 else none) := by
+  induction l with
+  | nil => rfl
+  | cons c t ih =>
+    simp only [Spec.File.splitDollar, partitionDollar]
+    by_cases hc : c = '$'
+    · simp [hc]
+    · have : (c == '$') = false := by simpa using hc
+      simp [hc, this, ih]
+
+theorem partitionDollar_no_dollar (l : Str) : '$' ∉ (partitionDollar l).1 := by
+  induction l with
+  | nil => simp [partitionDollar]
+  | cons c t ih =>
+    simp only [partitionDollar]
+    by_cases hc : (c == '$') = true
+    · simp [hc]
+    · simp only [hc, Bool.false_eq_true, if_false, List.mem_cons, not_or]
+      exact ⟨by intro h; subst h; simp at hc, ih⟩
+
+theorem partitionDollar_append (l : Str) :
+    l = (partitionDollar l).1 ++ (if (partitionDollar l).2.1 then '$' :: (partitionDollar l).2.2 else []) := by
+  induction l with
+  | nil => simp [partitionDollar]
+  | cons c t ih =>
+    simp only [partitionDollar]
+    by_cases hc : (c == '$') = true
+    · have : c = '$' := by simpa using hc
+      simp [hc, this]
+    · simp only [hc, Bool.false_eq_true, if_false, List.cons_append]
+      rw [← ih]
+
+theorem splitDollar_of_no_dollar : ∀ (a : Str), '$' ∉ a → Spec.File.splitDollar a = (a, none)
+  | [], _ => rfl
+  | c :: t, h => by
+    have hc : c ≠ '$' := fun e => h (e ▸ List.mem_cons_self)
+    have ht : '$' ∉ t := fun e => h (List.mem_cons_of_mem _ e)
+    simp [Spec.File.splitDollar, hc, splitDollar_of_no_dollar t ht]
+
+theorem splitDollar_append : ∀ (a t : Str), '$' ∉ a → Spec.File.splitDollar (a ++ '$' :: t) = (a, some t)
+  | [], t, _ => by simp [Spec.File.splitDollar]
+  | c :: a, t, h => by
+    have hc : c ≠ '$' := fun e => h (e ▸ List.mem_cons_self)
+    have ha : '$' ∉ a := fun e => h (List.mem_cons_of_mem _ e)
+    simp [Spec.File.splitDollar, hc, splitDollar_append a t ha]
+
+theorem not_fileBlank_of_mem (l : Str) (c : Char) (hc : c ∈ l) (h : pyIsSpace c = false) :
+    Spec.File.isBlankLine l = false := by
+  cases hb : Spec.File.isBlankLine l with
+  | false => rfl
+  | true =>
+    simp only [Spec.File.isBlankLine, List.all_eq_true] at hb
+    have := hb c hc
+    simp only [Spec.File.isBlankC, Bool.or_eq_true, decide_eq_true_eq] at this
+    rcases this with rfl | rfl
+    · have : pyIsSpace ' ' = true := by decide
+      rw [this] at h; cases h
+    · have : pyIsSpace '\t' = true := by decide
+      rw [this] at h; cases h
+
+theorem not_fileBlank_of_stripNonEmpty (l : Str) (h : stripNonEmpty l = true) : Spec.File.isBlankLine l = false := by
+  simp only [stripNonEmpty, List.any_eq_true, Bool.not_eq_true'] at h
+  obtain ⟨c, hc, hs⟩ := h
+  exact not_fileBlank_of_mem l c hc hs
+
 end MontePyVerif.C10
